@@ -416,6 +416,27 @@ def r3_storage_framing(ctx):
     else:
         ctx.finding(dumps, None, '_dumps no longer calls serialize()',
                     key='no-serialize')
+    # the text<->bytes conversion around the legacy pickle uses one named
+    # codec in both directions
+    pd = p.func('compat.py23', 'pickle_dumps')
+    pl = p.func('compat.py23', 'pickle_loads')
+
+    def codecs(f, meth):
+        return [const_str(c.args[0]) for c in walk_no_nested(f.node)
+                if isinstance(c, ast.Call) and call_name(c) == meth and
+                c.args and const_str(c.args[0])]
+    wc, rc = codecs(pd, 'decode'), codecs(pl, 'encode')
+    if wc and rc and set(wc) == set(rc) and len(set(wc)) == 1:
+        ctx.ok(pd, 'pickle text is decoded and re-encoded with the same '
+               'codec (%s)' % wc[0])
+    else:
+        ctx.finding(pl, None, 'pickle_dumps decodes the pickle bytes with %s '
+                    'but pickle_loads re-encodes the stored text with %s: '
+                    'legacy (version 1) signatures containing non-ASCII '
+                    'characters are corrupted on load' % (
+                        wc or 'no explicit codec', rc or
+                        'no explicit codec (a helper default)'),
+                    key='pickle-codec:%s:%s' % (wc, rc))
     # the json branch of the writer is the >= 2 branch
     g = ctx.cfg(dumps)
     jn = [n for n in g.nodes for c in n.calls()
